@@ -19,6 +19,8 @@
 (*           |x|^2 + const with l_i the columns of L.                      *)
 (* sepconv   f(x) = sum_i (x_i - m_i)^2 + k_i (x_i - m_i)^4, minimiser m   *)
 (*           (rational), strong convexity modulus 2.                       *)
+(* quartic   f(x) = sum_i (x_i - m_i)^4: strictly convex, singular Hessian *)
+(*           at the minimiser m (no distance tolerance: sc = FALSE).       *)
 (* logistic  f(x) = sum_i [log(1+exp(a_i'z)) + log(1+exp(-a_i'z))]         *)
 (*           + lambda/2 |z|^2, z = x - m: even in z and strictly convex,   *)
 (*           so the unique minimiser is m; modulus lambda; gradient        *)
@@ -132,6 +134,12 @@ SepCase(n, m, k) == [kind |-> "sepconv", n |-> n, m |-> m, k |-> k, xstar |-> m,
                      sc |-> TRUE, starts |-> StartRecs(n, m)]
 SepCases == UNION {{SepCase(n, m, k) : m \in [1..n -> Ms], k \in [1..n -> {0, 1}]} : n \in 1..IMin(MaxDim, 2)}
 
+(* pure quartics: strictly but not strongly convex (singular Hessian at the minimiser m): Newton and the     *)
+(* quasi-Newton methods converge only linearly, so the last iterates approach the stopping threshold slowly *)
+QuarticCase(n, m) == [kind |-> "quartic", n |-> n, m |-> m, k |-> [i \in 1..n |-> 1], xstar |-> m, invb2 |-> RZero,
+                      lip2 |-> RZero, sc |-> FALSE, starts |-> StartRecs(n, m)]
+QuarticCases == UNION {{QuarticCase(n, m) : m \in [1..n -> Ms]} : n \in 1..IMin(MaxDim, 2)}
+
 DataSets == {<< <<1>> >>, << <<1>>, <<2>> >>, << <<1, 0>>, <<1, 1>> >>, << <<1, -1>>, <<2, 1>>, <<0, 1>> >>}
 Lambdas == {Rat(1, 10), ROne}
 Shifts2 == {<<0, 0>>, <<1, -2>>}
@@ -196,6 +204,7 @@ Options == [kind |-> "options",
 (* ------------------------------ enumeration ---------------------------- *)
 Init == \/ case \in {q \in QuadCases : WellConditioned(q)}
         \/ case \in SepCases
+        \/ case \in QuarticCases
         \/ case \in LogCases
         \/ case \in RosenCases
         \/ case \in PolyCases
